@@ -301,6 +301,7 @@ def check(case, ctx):
         bexc = assign_cells(ev, coords, rhs_b)
     # ---- the call
     t = None
+    pt_args = ()
     if spelling == 'ndmask':
         mk = case["mask"]
         mobj = mk
@@ -322,6 +323,7 @@ def check(case, ctx):
             pos = [(p - len(l)) if not isinstance(p, list) else [q - len(l) for q in p] for p, l in zip(pos, m.labels)]
         pt = tuple(p if not isinstance(p, list) else (p if len(p) else np.array([], dtype=int)) for p in pos)
         psingle = pt[0] if len(pt) == 1 else pt
+        pt_args = pt
         if spelling.startswith('posmode'):
             # an array that indexes by position because it was created while the option said so (the option is back to 'label')
             with common.options(**{'indexing.by': 'position'}):
@@ -369,7 +371,7 @@ def check(case, ctx):
             fn = lambda: a.put(t, rhs, cast=cast, inplace=inplace)
         label += " with t=%s v=%s" % (codec.short(t, 160), codec.short(rhs, 100))
     label += " on %s%s array labels=%s" % (sp["values"].dtype, m.shape, codec.short(m.labels, 120))
-    out, exc = ctx.call(label, fn, operands=(a,), mutates=(a,) if inplace else (), meta='carry' if not inplace else None)
+    out, exc = ctx.call(label, fn, operands=(a,) + common.array_args(rhs, case.get("idx"), case.get("mask"), pt_args), mutates=(a,) if inplace else (), meta='carry' if not inplace else None)
     klass = (case["ak"], case["vk"], case["form"], cast, inplace, spelling, tuple(case.get("ikinds", ())), case.get("block"))
     if bexc is not None:
         # NumPy itself refuses the equivalent assignment: the same exception type is the expected outcome
